@@ -170,8 +170,8 @@ Fixpoint classify (m : list (string * optdef)) (after_dd : bool) (l : list strin
 
 (* ---------- consuming ---------- *)
 Definition value := option string.     (* None = the empty list left by _get_values for "--" *)
-Record acc := { defs : list value; paths : list value; files : list value; extras : list string }.
-Definition acc0 : acc := {| defs := []; paths := []; files := []; extras := [] |}.
+Record acc := { defs : list value; paths : list value; syspaths : list value; files : list value; extras : list string }.
+Definition acc0 : acc := {| defs := []; paths := []; syspaths := []; files := []; extras := [] |}.
 
 Inductive outcome :=
   | Parsed (a : acc)           (* parse_known_args returned *)
@@ -183,13 +183,14 @@ Definition on_acc (f : acc -> acc) (o : outcome) : outcome :=
 Definition push (d : dest) (v : value) : outcome -> outcome :=
   on_acc (fun a =>
     match d with
-    | DDef => {| defs := v :: defs a; paths := paths a; files := files a; extras := extras a |}
-    | DPath => {| defs := defs a; paths := v :: paths a; files := files a; extras := extras a |}
-    | DFile => {| defs := defs a; paths := paths a; files := v :: files a; extras := extras a |}
+    | DDef => {| defs := v :: defs a; paths := paths a; syspaths := syspaths a; files := files a; extras := extras a |}
+    | DPath => {| defs := defs a; paths := v :: paths a; syspaths := syspaths a; files := files a; extras := extras a |}
+    | DSys => {| defs := defs a; paths := paths a; syspaths := v :: syspaths a; files := files a; extras := extras a |}
+    | DFile => {| defs := defs a; paths := paths a; syspaths := syspaths a; files := v :: files a; extras := extras a |}
     | DIgn => a
     end).
 Definition push_extra (s : string) : outcome -> outcome :=
-  on_acc (fun a => {| defs := defs a; paths := paths a; files := files a; extras := s :: extras a |}).
+  on_acc (fun a => {| defs := defs a; paths := paths a; syspaths := syspaths a; files := files a; extras := s :: extras a |}).
 
 Definition value_of (s : string) : value := if String.eqb s "--" then None else Some s.
 
@@ -252,9 +253,17 @@ Definition parse_args_with (tbl : list optdef) (caught error_raises : bool) (arg
 Definition parse_args (argv : list string) : result :=
   parse_args_with c11_options c11_argerror_caught c11_error_raises argv.
 
-(* the three lists of the returned configuration *)
+(* what the namespace holds, per destination ... *)
+Definition lists4_of (r : result) : option (list value * list value * list value * list value) :=
+  match r with
+  | ROk a | RWarned a => Some (defs a, paths a, syspaths a, files a)
+  | _ => None
+  end.
+(* ... and the three lists of the returned configuration:
+   PreprocessorConfiguration(args.defines.copy(), args.include_paths + args.system_include_paths,
+                             args.include_files.copy(), pass_name)                                  *)
 Definition lists_of (r : result) : option (list value * list value * list value) :=
   match r with
-  | ROk a | RWarned a => Some (defs a, paths a, files a)
+  | ROk a | RWarned a => Some (defs a, List.app (paths a) (syspaths a), files a)
   | _ => None
   end.
